@@ -40,6 +40,16 @@ func (c *Ctx) pcFields() (map[string]*pcField, int) {
 		return nil
 	}
 	ngen := 0
+	// work items: a function and which of its int parameters carry an offset. Generators (a *GenState and an int parameter) start
+	// the list with all their ints; a helper of the package that is handed an offset-derived int (wrapSubroutine(name, offset, ...))
+	// joins it with those parameters.
+	type work struct {
+		fn   *ssa.Function
+		ints []*ssa.Parameter
+	}
+	var list []work
+	offsetParams := map[*ssa.Function]map[*ssa.Parameter]bool{}
+	isGenerator := map[*ssa.Function]bool{}
 	for _, fn := range c.SrcFuncs("bytecode") {
 		// generator functions: a *GenState parameter and at least one int parameter
 		hasState := false
@@ -56,6 +66,11 @@ func (c *Ctx) pcFields() (map[string]*pcField, int) {
 			continue
 		}
 		ngen++
+		isGenerator[fn] = true
+		list = append(list, work{fn, ints})
+	}
+	for wi := 0; wi < len(list) && wi < 200; wi++ {
+		fn, ints := list[wi].fn, list[wi].ints
 		isOffset := map[ssa.Value]bool{}
 		for _, p := range ints {
 			isOffset[p] = true
@@ -87,6 +102,38 @@ func (c *Ctx) pcFields() (map[string]*pcField, int) {
 		}
 		t.Run()
 		instrsOf(fn, func(in ssa.Instruction) {
+			// a helper of the package that receives an offset-derived int
+			if call, ok := in.(*ssa.Call); ok {
+				sc := call.Call.StaticCallee()
+				if sc != nil && sc.Pkg == fn.Pkg && !isGenerator[sc] && sc.Signature.Recv() == nil && len(sc.Blocks) > 0 {
+					var more []*ssa.Parameter
+					for i, a := range call.Call.Args {
+						if i >= len(sc.Params) {
+							break
+						}
+						if b, ok := sc.Params[i].Type().(*types.Basic); !ok || b.Kind() != types.Int {
+							continue
+						}
+						if t.get(a)&1 != 0 && !offsetParams[sc][sc.Params[i]] {
+							if offsetParams[sc] == nil {
+								offsetParams[sc] = map[*ssa.Parameter]bool{}
+							}
+							offsetParams[sc][sc.Params[i]] = true
+							more = append(more, sc.Params[i])
+						}
+					}
+					if len(more) > 0 {
+						var all []*ssa.Parameter
+						for _, p := range sc.Params {
+							if offsetParams[sc][p] {
+								all = append(all, p)
+							}
+						}
+						list = append(list, work{sc, all})
+					}
+				}
+				return
+			}
 			st, ok := in.(*ssa.Store)
 			if !ok {
 				return
@@ -111,7 +158,13 @@ func (c *Ctx) pcFields() (map[string]*pcField, int) {
 			if P[key] == nil {
 				P[key] = &pcField{T: n, Field: fa.Field, Name: s.Field(fa.Field).Name()}
 			}
-			P[key].Where = append(P[key].Where, fmt.Sprintf("%s [%s]", fnName(fn), c.pos(st.Pos())))
+			where := fmt.Sprintf("%s [%s]", fnName(fn), c.pos(st.Pos()))
+			for _, w := range P[key].Where {
+				if w == where {
+					return
+				}
+			}
+			P[key].Where = append(P[key].Where, where)
 		})
 	}
 	return P, ngen
